@@ -285,12 +285,13 @@ def replay_cex(cex):
         return False, 'concrete run of the harness raised %s: %s' % (type(e).__name__, e)
     if cctx.base_violated:
         return False, 'counterexample values violate the harness assumptions: %s' % cctx.base_violated[:3]
-    for ob in obs:
-        if ob.label == cex['label'] and not ob.expect_sat:
-            v = holds_concretely(ob)
-            if v == 'violated':
-                return True, 'obligation %r fails on the concrete run (info: %s)' % (ob.label, json.dumps(jsonable(ob.info))[:600])
-            return False, 'obligation %r is %s on the concrete run' % (ob.label, v)
+    same = [ob for ob in obs if ob.label == cex['label'] and not ob.expect_sat]
+    verdicts = [(ob, holds_concretely(ob)) for ob in same]
+    for ob, v in verdicts:
+        if v == 'violated':
+            return True, 'obligation %r fails on the concrete run (info: %s)' % (ob.label, json.dumps(jsonable(ob.info))[:600])
+    if verdicts:
+        return False, 'obligation %r is %s on the concrete run' % (cex['label'], verdicts[0][1])
     # same signature under a different label (e.g. a different exception site) still counts
     for ob in obs:
         if ob.sig == cex['sig'] and not ob.expect_sat and holds_concretely(ob) == 'violated':
